@@ -20,7 +20,7 @@ pub fn spec() -> Spec {
         case_cap_s: |t| t.pick(300, 3600),
         rule: "one case per (connected complete 2-dimensional D-set, geometry): every output of DSets(2, <= N) in the generator's numbering, every relabeling of the D-sets of size <= 4, x {spherical, euclidean, hyperbolic, all}. The oracle enumerates, depth-first with monotone curvature pruning, ALL branching vectors with minimal degree 3 and v <= 10 (10 exceeds every admissible value: euclidean cone orders are <= 6, a minimally hyperbolic vector other than the all-minimal one has K >= -1, spherical ones are capped at 7 by the statement), classifies them by exact curvature, minimal hyperbolicity and the orbifold computed from the definitions, and reduces them modulo the brute-force automorphism group of the D-set. Each geometry's output must be on exactly the input D-set, complete, of degree >= 3, consecutively numbered, of the right curvature sign, and hit each expected class exactly once; 'all' = disjoint union. Non-trivial = at least one expected symbol.",
         assumptions: &["DSets supplies the D-sets (validated by C06); each is re-read into the reference model before use", "the list of good spherical orbifolds is the fixed list of the statement, copied into the harness"],
-        bounds: |t| json!({"dsets_max_size": t.pick(14, 18), "all_relabelings_up_to_size": 4, "polyhedral_sets_max_size": t.pick(48, 120), "oracle_v_max": 10}),
+        bounds: |t| json!({"dsets_max_size": t.pick(16, 18), "all_relabelings_up_to_size": 4, "polyhedral_sets_max_size": t.pick(48, 120), "oracle_v_max": 10}),
     }
 }
 
@@ -292,7 +292,7 @@ fn run(ctx: &mut Ctx) {
     // the generator is consumed as a stream (every worker walks it and keeps its own share), so that the
     // thorough bound is not limited by holding several million D-sets per worker
     polyhedral_family(ctx);
-    let mut it = ctx.supply("DSets::new", || Some(DSets::new(2, tier.pick(14, 18))));
+    let mut it = ctx.supply("DSets::new", || Some(DSets::new(2, tier.pick(16, 18))));
     loop {
         let next = match it.as_mut() {
             None => break,
